@@ -321,6 +321,83 @@ def _matrix_part(w, rng, shard, nshards, obs, viols, seen):
                                   "detail": det})
 
 
+# reserved words of the engines' own published lists (SQLite: https://www.sqlite.org/lang_keywords.html;
+# PostgreSQL reserved words of appendix C that are not in SQLite's list): each is used as a column name,
+# a table name and a new alias in a fixed tiny program, executed against a database that has those names
+SQLITE_KEYWORDS = """abort action add after all alter always analyze and as asc attach autoincrement before begin between by cascade case cast check
+collate column commit conflict constraint create cross current current_date current_time current_timestamp database default deferrable deferred
+delete desc detach distinct do drop each else end escape except exclude exclusive exists explain fail filter first following for foreign from
+full generated glob group groups having if ignore immediate in index indexed initially inner insert instead intersect into is isnull join key
+last left like limit match materialized natural no not nothing notnull null nulls of offset on or order others outer over partition plan pragma
+preceding primary query raise range recursive references regexp reindex release rename replace restrict returning right rollback row rows
+savepoint select set table temp temporary then ties to transaction trigger unbounded union unique update using vacuum values view virtual when
+where window with without""".split()
+POSTGRES_EXTRA = """analyse any array asymmetric authorization binary both concurrently current_catalog current_role current_schema current_user
+false fetch freeze grant ilike lateral leading localtime localtimestamp only overlaps placing session_user similar some symmetric tablesample
+trailing true user variadic verbose""".split()
+
+
+def keyword_matrix():
+    out = []
+    for kw in SQLITE_KEYWORDS + POSTGRES_EXTRA:
+        c = ["col", "kt", kw]
+        out.append(("column", kw, {"lets": [], "cuts": [], "main": [
+            {"t": "from", "src": {"k": "table", "name": "kt"}, "alias": None},
+            {"t": "select", "items": [[None, c], [None, ["col", "kt", "id"]]]},
+            {"t": "filter", "cond": ["bin", "!=", ["col", None, kw], ["lit", None]]},
+            {"t": "sort", "keys": [[True, ["col", None, kw]], [False, ["col", None, "id"]]]}]}, {"kt": {"cols": ["id", kw], "types": ["int", "int"], "rows": [[1, 5], [2, None], [3, 7]]}}))
+        out.append(("table", kw, {"lets": [], "cuts": [], "main": [
+            {"t": "from", "src": {"k": "table", "name": kw}, "alias": None},
+            {"t": "select", "items": [[None, ["col", kw, "id"]], [None, ["col", kw, "v"]]]},
+            {"t": "sort", "keys": [[False, ["col", None, "id"]]]}]}, {kw: {"cols": ["id", "v"], "types": ["int", "int"], "rows": [[1, 5], [2, None]]}}))
+        kdb = {"kt": {"cols": ["id", "x"], "types": ["int", "int"], "rows": [[1, 5], [2, None], [3, 7]]}}
+        out.append(("alias", kw, {"lets": [], "cuts": [], "main": [
+            {"t": "from", "src": {"k": "table", "name": "kt"}, "alias": kw},
+            {"t": "select", "items": [[None, ["col", kw, "id"]], [None, ["col", kw, "x"]]]},
+            {"t": "sort", "keys": [[True, ["col", kw, "id"]]]},
+            {"t": "take", "lo": None, "hi": 2}]}, kdb))
+        out.append(("new_column", kw, {"lets": [], "cuts": [], "main": [
+            {"t": "from", "src": {"k": "table", "name": "kt"}, "alias": None},
+            {"t": "derive", "items": [[kw, ["bin", "+", ["col", "kt", "id"], ["lit", 1]]]]},
+            {"t": "select", "items": [[None, ["col", None, kw]], [None, ["col", "kt", "id"]]]},
+            {"t": "sort", "keys": [[True, ["col", None, kw]]]},
+            {"t": "take", "lo": None, "hi": 2}]}, kdb))
+    return out
+
+
+def _keyword_part(w, shard, nshards, obs, viols, seen):
+    for i, (pos, kw, prog, db) in enumerate(keyword_matrix()):
+        if i % nshards != shard:
+            continue
+        try:
+            src = grel.pp_program(prog)
+        except ValueError:
+            continue
+        for dialect in ("sqlite", "generic"):
+            w.db_close_all()
+            w.db_open("h", grel.db_stmts(db))
+            o = relcheck.run_case(w, prog, db, "h", dialect, src=src, user_names={kw, "id", "v", "x", "kt"})
+            obs["keyword_cases"] = obs.get("keyword_cases", 0) + 1
+            symptoms = []
+            if o.status == "rejected":
+                obs["keyword_rejected"] = obs.get("keyword_rejected", 0) + 1
+            elif o.status in ("panic", "abort"):
+                symptoms.append(("renamed_panics", str(o.symptoms)[:200]))
+            elif o.status == "judged":
+                obs["keyword_judged"] = obs.get("keyword_judged", 0) + 1
+                obs["cells"].add(("engine_keyword", pos))
+                for (pp, sym, det) in o.symptoms:
+                    if pp in ("C01", "C03", "C05", "C07"):
+                        symptoms.append(("renamed_" + sym, det + " || sql: " + (o.sql or "")[:300]))
+            for (sym, det) in symptoms:
+                key = (sym, pos, kw)
+                if key in seen:
+                    continue
+                seen.add(key)
+                viols.append({"property": "C09", "symptom": sym, "shape": "%s :: engine_keyword/%s/%s :: inherits:none" % (dialect, pos, kw),
+                              "witness": {"prog": prog, "db": db, "dialect": dialect, "class": "engine_keyword", "map": [], "prql": src}, "detail": det})
+
+
 def _shard(seed, shard, n_cases):
     rng = core.shard_rng(seed, "C09", shard)
     w = core.Worker()
@@ -330,6 +407,7 @@ def _shard(seed, shard, n_cases):
     ci = 0
     n_reduced = 0
     _matrix_part(w, rng, shard, core.NCPU, obs, viols, seen)
+    _keyword_part(w, shard, core.NCPU, obs, viols, seen)
     while obs["cases"] < n_cases:
         db = grel.gen_db(rng, relcheck.DB_KINDS[ci % 5])
         try:
